@@ -49,22 +49,33 @@ UsesN(w) ==
     [d |-> "f", ss |-> <<SLet(PTup(<<PId("p"), PTup(<<PId("m"), PId("q")>>)>>), TN, EWit(w)),
                          Eq8(V("p"), Dec(5)), Eq16(V("m"), Dec(513)), Eq8(V("q"), Dec(9))>>]>>
 
+\* a tuple of four components (the balanced layout ((a, b), (c, d)) differs from a right-nested chain)
+T4 == TTup(<<T8, T16, T8, T16>>)
+Uses4(w) ==
+  <<[d |-> "u", ss |-> <<SLet(PId("unused"), T4, EWit(w))>>],
+    [d |-> "p", ss |-> <<SLet(PTup(<<PId("p"), PIgn, PIgn, PIgn>>), T4, EWit(w)), Eq8(V("p"), Dec(5))>>],
+    [d |-> "p", ss |-> <<SLet(PTup(<<PIgn, PIgn, PIgn, PId("m")>>), T4, EWit(w)), Eq16(V("m"), Dec(513))>>],
+    [d |-> "p", ss |-> <<SLet(PTup(<<PIgn, PId("m"), PId("q"), PIgn>>), T4, EWit(w)), Eq16(V("m"), Dec(513)), Eq8(V("q"), Dec(9))>>],
+    [d |-> "f", ss |-> <<SLet(PTup(<<PId("p"), PId("m"), PId("q"), PId("n")>>), T4, EWit(w)),
+                         Eq8(V("p"), Dec(5)), Eq16(V("m"), Dec(513)), Eq8(V("q"), Dec(9)), Eq16(V("n"), Dec(513))>>]>>
+
 ValsOf(ty) ==
-  CASE ty = TN -> <<VTup(<<U8(5), VTup(<<U16(513), U8(9)>>)>>), VTup(<<U8(9), VTup(<<U16(513), U8(5)>>)>>),
+  CASE ty = T4 -> <<VTup(<<U8(5), U16(513), U8(9), U16(513)>>), VTup(<<U8(9), U16(513), U8(5), U16(2)>>)>>
+    [] ty = TN -> <<VTup(<<U8(5), VTup(<<U16(513), U8(9)>>)>>), VTup(<<U8(9), VTup(<<U16(513), U8(5)>>)>>),
                     VTup(<<U8(5), VTup(<<U16(2309), U8(9)>>)>>)>>
     [] ty = TP -> <<VTup(<<U8(5), U8(9)>>), VTup(<<U8(5), U8(8)>>), VTup(<<U8(0), U8(9)>>)>>
     [] ty = TO -> <<VSome(U16(513)), VNone, VSome(U16(2))>>
     [] ty = TE -> <<VLeft(U8(5)), VRight(U16(513)), VLeft(U8(6)), VRight(U16(7))>>
 
 Names == <<"A", "B", "C">>
-ShFamilies == {[ty |-> t, n |-> k] : t \in {TP, TO, TE, TN}, k \in {2, 3}}
+ShFamilies == {[ty |-> t, n |-> k] : t \in {TP, TO, TE, TN}, k \in {2, 3}} \cup {[ty |-> T4, n |-> 2]}
 
 \* all sequences of k use indices
 RECURSIVE IdxSeqs(_, _)
 IdxSeqs(k, m) == IF k = 0 THEN {<<>>} ELSE {<<i>> \o s : i \in 1..m, s \in IdxSeqs(k - 1, m)}
 
 ShProgramsOf(f) ==
-  LET us(w) == IF f.ty = TN THEN UsesN(w) ELSE Uses(f.ty, w)
+  LET us(w) == IF f.ty = TN THEN UsesN(w) ELSE IF f.ty = T4 THEN Uses4(w) ELSE Uses(f.ty, w)
       m == Len(us("A"))
       vs == ValsOf(f.ty)
       pts == {[i \in 1..f.n |-> vs[c[i]]] : c \in IdxSeqs(f.n, Len(vs))}
